@@ -67,10 +67,12 @@ SINGLE_ARRAY_ONLY = ('ExtendedZOrderNNPS', 'StratifiedSFCNNPS')
 
 def nnps_menu(ncfg, thorough, two):
     """The default algorithm for every configuration; for every fifth one
-    (thorough: all) four (all) of the others as well, taking turns."""
+    (thorough: every one) four (five) of the others as well, taking turns."""
     others = [n for n in NNPS[1:] if not (two and n in SINGLE_ARRAY_ONLY)]
     if thorough:
-        return NNPS[:1] + others
+        # five of the others for every configuration, taking turns
+        k = (5 * ncfg) % len(others)
+        return NNPS[:1] + [others[(k + j) % len(others)] for j in range(5)]
     if ncfg % 5:
         return NNPS[:1]
     k = (ncfg // 5) % len(others)
@@ -235,7 +237,7 @@ def _job(args, only=None):
             # single particle, and the octree classes have a recorded C01
             # finding (undefined behaviour) on empty arrays
             continue
-        npat = 3 if not thorough else 9
+        npat = 3 if not thorough else 6
         for pattern in (range(npat) if only is None else [only[1]]):
             if two:
                 split = [pts[0::2], pts[1::2]]
